@@ -386,7 +386,7 @@ func runC01(e *env) {
 		}
 	}
 	// ---- rings containing token 2^32-1: alone in an instance, with other tokens, next to token-less
-	//      instances (the loser-tree sentinel equals this token) ---------------------------------------
+	//      instances (the loser-tree sentinel equals this token; pre-fix a6b17a3 it was dropped) -------
 	{
 		r := newRng(e.seed, 104)
 		M := uint32(math.MaxUint32)
